@@ -3,6 +3,7 @@ package props
 import (
 	"fmt"
 	"math/rand"
+	"path/filepath"
 	"runtime"
 	"sync"
 	"time"
@@ -325,6 +326,75 @@ func c08Stress(c *rt.C) {
 	c.Sample(map[string]interface{}{"stress": true, "goroutines": nG, "snapshots": nSnaps, "opens_refused": opensAfterZero})
 }
 
+// c08Backup: StoreToDisk consumes one reference of the snapshot it is given (in delta mode it
+// releases it early and scans a private placeholder). Whatever the mode, and whether or not the
+// caller keeps a reference of its own, the snapshot must be retired exactly once: afterwards
+// Open fails, and the collector reaches every later snapshot.
+func c08Backup(c *rt.C) {
+	r := c.Rng
+	delta := c.Index%2 == 0
+	keep := (c.Index/2)%2 == 0 // the caller keeps its own reference across the backup
+	older := (c.Index/4)%2 == 0 // an older snapshot is open during the backup
+	db := OpenDB(DBOpt{Mem: []string{"go", "poison"}[c.Index%2], Delta: delta})
+	w := db.N.NewWriter()
+	live := 0
+	for i := 0; i < 60; i++ {
+		w.Put(KeyBytes(i))
+		live++
+	}
+	var old *nitro.Snapshot
+	if older {
+		old, _ = db.N.NewSnapshot()
+	}
+	for i := 0; i < 10; i++ {
+		w.Delete(KeyBytes(i))
+		live--
+	}
+	s, _ := db.N.NewSnapshot()
+	if keep && !s.Open() {
+		c.Violate("open-refused", "Open() refused on an open snapshot", nil)
+		return
+	}
+	err := db.N.StoreToDisk(filepath.Join(c.Tmp, "bk"), s, pick(r, 1, 4), nil)
+	c.Evals(1)
+	c.Sig("backup/delta=%v/keep=%v/older=%v", delta, keep, older)
+	witness := map[string]interface{}{"delta": delta, "caller_keeps_reference": keep, "older_snapshot_open": older}
+	if err != nil {
+		c.Inconclusive("StoreToDisk failed: " + err.Error())
+		return
+	}
+	if keep {
+		// the caller's reference is still valid: the snapshot must still be listed and scannable
+		found := false
+		for _, x := range db.N.GetSnapshots() {
+			if x == s {
+				found = true
+			}
+		}
+		if !found {
+			c.Violate("retired-while-referenced", "after StoreToDisk the snapshot is gone from the open list although the caller still holds a reference", witness)
+		}
+		if got, ok := Scan(s, 0); !ok || len(got) != 50 {
+			c.Violate("retired-while-referenced", fmt.Sprintf("after StoreToDisk the caller's reference no longer scans the snapshot (ok=%v, %d items, want 50)", ok, len(got)), witness)
+		}
+		s.Close()
+	}
+	if s.Open() {
+		c.Violate("open-on-retired", "Open() succeeded after the last reference was released (StoreToDisk consumed it)", witness)
+	}
+	if old != nil {
+		old.Close()
+	}
+	for k := 10; k < 13; k++ {
+		w.Delete(KeyBytes(k))
+		live--
+		x, _ := db.N.NewSnapshot()
+		x.Close()
+	}
+	c08CheckCollector(c, db, live, witness)
+	c.Sample(witness)
+}
+
 func interleavingSigRC(h []porcupine.Operation) string {
 	var hs uint64 = 1469598103934665603
 	type ev struct {
@@ -353,7 +423,7 @@ func init() {
 	rt.Register(&rt.Prop{
 		ID: "C08", Level: "exploration",
 		Technique: "runtime monitoring: deterministic rendezvous schedules through the Open/Close hook points + stress histories checked with porcupine against a reference-count model; collector progress reconciled at quiescence",
-		Rule: "cases 0-1: directed schedules (A passes Open's zero test and parks, B performs the final Close, A resumes; and the mirror image with B parked right after its decrement) — deterministic, replay exactly. Other cases: 2-32 goroutines race Open / NewIterator / Close / Iterator.Close around the final close of 1-8 snapshots with perturbation at the hook points; every snapshot's history is checked against the refcount model (Open true iff count>0), Open/NewIterator must fail afterwards, then 3 new epochs are created and closed and GC() at quiescence must bring GetLastGCSn to the newest snapshot, empty both snapshot lists and leave exactly the live items. " +
+		Rule: "cases 0-1: directed schedules (A passes Open's zero test and parks, B performs the final Close, A resumes; and the mirror image with B parked right after its decrement) — deterministic, replay exactly. cases 2-9: StoreToDisk (delta on/off, caller keeping its own reference or not, an older snapshot open or not) consumes a reference — afterwards the snapshot must be retired exactly once (still listed while the caller's reference lives, Open fails after, collector reaches every later snapshot). Other cases: 2-32 goroutines race Open / NewIterator / Close / Iterator.Close around the final close of 1-8 snapshots with perturbation at the hook points; every snapshot's history is checked against the refcount model (Open true iff count>0), Open/NewIterator must fail afterwards, then 3 new epochs are created and closed and GC() at quiescence must bring GetLastGCSn to the newest snapshot, empty both snapshot lists and leave exactly the live items. " +
 			"evaluations = histories checked; distinct = per-snapshot interleaving signatures",
 		Assumptions: []string{"every goroutine closes only references it holds (a client double-close is not judged)", "porcupine v1.3.0 trusted as checker"},
 		Cases: func(t string) int {
@@ -368,6 +438,10 @@ func init() {
 		Run: func(c *rt.C) {
 			if c.Index < 2 {
 				c08Directed(c, c.Index)
+				return
+			}
+			if c.Index < 10 {
+				c08Backup(c)
 				return
 			}
 			c08Stress(c)
